@@ -1276,7 +1276,17 @@ fn pipeline_d(seed: u64, ops: &[DOp], ctx: &mut Ctx) -> Outcome {
     let mut d_stream_total = 0usize;
     let mut d_kept: Vec<Summary> = Vec::new();
     let mut d_kept_streams: Vec<SummaryStream> = Vec::new();
-    for op in ops {
+    // one history in eight has a second caller thread: operation number i is carried out
+    // by it when bit i mod 63 of the mask (derived from the seed) is set
+    let mask = seed.rotate_left(17) | (1 << 63);
+    let helper: Option<Helper> = if seed % 8 == 3 && is_send_sync!(Summary) && is_send_sync!(SummaryStream) {
+        ctx.fault("caller_thread_switch");
+        Some(Helper::new())
+    } else {
+        None
+    };
+    for (oi, op) in ops.iter().enumerate() {
+        let step: Outcome = on_thread!(helper, mask, oi, (|| -> Outcome {
         match op {
             DOp::Set { var, val } => {
                 if *var < 23 {
@@ -1353,11 +1363,12 @@ fn pipeline_d(seed: u64, ops: &[DOp], ctx: &mut Ctx) -> Outcome {
             }
         }
         // every getter after every call
-        for v in 0..23 {
-            let _ = real_get(&sum, v);
-        }
+        touch_all_getters(&sum);
         let _ = (sum.is_completed(), sum.pkgbase(), sum.pkgversion(), sum.description_as_str());
         ep!(ctx, "Summary getters", true);
+        Ok(())
+        })());
+        step?;
     }
     // the objects that were cloned away earlier are still alive and still usable
     for k in d_kept.iter_mut() {
